@@ -28,10 +28,21 @@ def main():
             ctx.lean.run_audit(a.prop)
         ctx.driver = common.Driver(exe)
         common.use_repo()
-        if a.replay:
-            mod.replay(ctx, a.replay)
-        else:
-            mod.run(ctx)
+        try:
+            if a.replay:
+                mod.replay(ctx, a.replay)
+            else:
+                mod.run(ctx)
+        except (MemoryError, KeyboardInterrupt):
+            raise
+        except Exception as e:      # noqa
+            # Build, audit and driver are fine, yet the harness could not digest what the library did (on the unchanged tree this
+            # never happens, for any seed): the tie between model and code is broken on this tree — reported as such, with the
+            # traceback as the replay; the cases evaluated so far keep their verdicts (an oracle failure found earlier still wins).
+            tb = traceback.format_exc()
+            print(tb, file=sys.stderr)
+            ctx.disagree(f'the harness could not process the behaviour of the library under test: {type(e).__name__}: {str(e)[:200]}',
+                         {'kind': 'harness-exception', 'traceback': tb[-3000:]})
         return common.finish(ctx)
     except Exception:      # infrastructure failure: never exit 1
         traceback.print_exc()
